@@ -13,8 +13,11 @@ import (
 	"os"
 	"sort"
 	"strings"
+	"sync/atomic"
 	"time"
 
+	"github.com/caddyserver/certmagic"
+	"github.com/tmpim/casket"
 	"verifharness/lib"
 )
 
@@ -44,8 +47,28 @@ func subE2E(args []string) int {
 	rng := lib.NewRng(in.Seed ^ 0xC15E2E)
 	out := bufio.NewWriter(os.Stdout)
 	defer out.Flush()
+	// the CA of this process: a listener of our own that counts connections
+	// and answers nothing useful (no case may need a certificate from it)
+	var caConns int64
+	if caLn, err := net.Listen("tcp", "127.0.0.1:0"); err == nil {
+		defer caLn.Close()
+		go func() {
+			for {
+				cn, err := caLn.Accept()
+				if err != nil {
+					return
+				}
+				atomic.AddInt64(&caConns, 1)
+				cn.Close()
+			}
+		}()
+		certmagic.DefaultACME.CA = "https://" + caLn.Addr().String() + "/directory"
+		certmagic.DefaultACME.Email = "verif@verif.test"
+		certmagic.DefaultACME.Agreed = true
+	}
 	for i, k := range in.Cases {
 		ip := fmt.Sprintf("127.77.%d.%d", 1+rng.Intn(250), 1+rng.Intn(250))
+		ca0 := atomic.LoadInt64(&caConns)
 		p := lib.FreePorts(4)
 		o := e2eObs{Name: k.Name, HTTPPort: p[0], HTTPSPort: p[1], IP: ip}
 		// the documented way to move the default ports: the -http-port / -https-port flags
@@ -62,11 +85,43 @@ func subE2E(args []string) int {
 		cert, key, _ := lib.MintCert(dir, fmt.Sprintf("e2e-%d", i), names)
 		rep := strings.NewReplacer("{IP}", ip, "{H}", fmt.Sprint(p[0]), "{S}", fmt.Sprint(p[1]), "{P1}", fmt.Sprint(p[2]), "{P2}", fmt.Sprint(p[3]), "{CERT}", cert, "{KEY}", key)
 		o.Text = rep.Replace(k.Text)
-		inst, err := lib.Start(o.Text, fmt.Sprintf("c15-e2e-%d", i))
+		type started struct {
+			inst *casket.Instance
+			err  error
+		}
+		sc := make(chan started, 1)
+		go func() {
+			inst, err := lib.Start(o.Text, fmt.Sprintf("c15-e2e-%d", i))
+			sc <- started{inst, err}
+		}()
+		var inst *casket.Instance
+		select {
+		case st := <-sc:
+			inst, err = st.inst, st.err
+		case <-time.After(40 * time.Second):
+			// (flow control only; what is judged is whether the CA was contacted)
+			err = fmt.Errorf("start did not return within 40 s")
+		}
+		o.CAConns = int(atomic.LoadInt64(&caConns) - ca0)
 		if err != nil {
 			o.StartErr = err.Error()
+			if k.BoundPublic && o.CAConns > 0 {
+				o.StartErr = "" // judged on the CA contacts
+			}
 			emit(out, o)
 			continue
+		}
+		if k.BoundPublic {
+			port := p[2]
+			r := lib.Once(net.JoinHostPort(ip, fmt.Sprint(port)), "GET", "/", strings.Fields(strings.TrimSpace(o.Text))[0])
+			ex := e2eExchange{Target: "/", HostHeader: strings.Fields(strings.TrimSpace(o.Text))[0]}
+			if r.Err != nil {
+				ex.Err = r.Err.Error()
+			} else {
+				ex.Status, ex.Marker = r.Status, r.Header.Get("X-C15-Site")
+			}
+			o.Plain = &ex
+			o.CAConns = int(atomic.LoadInt64(&caConns) - ca0)
 		}
 		for port := range lib.OwnListeningPorts() {
 			o.Listening = append(o.Listening, port)
